@@ -226,6 +226,10 @@ pub fn cut_events(len: usize) -> Vec<Event> {
 
 pub fn to_path(l: ValuePointerRef) -> Path {
     // walks the public enum itself: independent of ValuePointerRef::to_owned (C19's subject)
+    // ... but, like a user's error type would, the recording types also call the accessors on every location they
+    // are given (results unused): an accessor that panics or does not return then shows inside deserialize (C12)
+    let _ = (l.is_origin(), l.first_field(), l.last_field());
+    let _ = l.to_owned();
     let mut out = vec![];
     let mut cur = l;
     loop {
